@@ -1,11 +1,13 @@
 //! C09 — Source text means what the documented grammar says.
 //!
-//! Four sub-checks, chosen by the first control byte:
+//! Five sub-checks, chosen by the first control byte:
 //!  (a) literal spellings vs an independent decoder,
 //!  (b) Unicode identifiers in every naming position,
 //!  (c) comments / whitespace / shebang do not change behaviour,
 //!  (d) operator sequences: minimal == full parenthesisation == model; illegal
-//!      chains are parse errors.
+//!      chains are parse errors,
+//!  (e) whole generated programs: the form without redundant parentheses and the
+//!      fully parenthesised form are both accepted and both agree with the model.
 
 use std::fmt::Write as _;
 use std::net::{IpAddr, Ipv4Addr, Ipv6Addr};
@@ -586,6 +588,56 @@ impl W {
         o
     }
 
+    /// A generated program printed with minimal and with full parentheses: both forms
+    /// must compile (or both be rejected) and both must agree with the model.
+    fn program_parens(&self, case: &Case, render: bool) -> Outcome {
+        let empty: Vec<u8> = Vec::new();
+        let s0 = case.get(1).unwrap_or(&empty);
+        let s1 = case.get(2).unwrap_or(&empty);
+        let mut rets: Vec<Ty> = SCALAR_TYS.to_vec();
+        rets.push(Ty::Unit);
+        rets.push(Ty::Str);
+        let prog = Gen::new(s0, s1, self.prof.clone()).program(&rets);
+        let mut inputs_case: Case = vec![Vec::new(), Vec::new()];
+        inputs_case.extend(case.iter().skip(3).cloned());
+        let full_src = print_program(&prog, Parens::Full);
+        let min_src = print_program(&prog, Parens::Minimal);
+        let mut o_min = check_program_with(&self.rt, Kind::C02, &prog, None, &inputs_case, render);
+        let o_full = check_program_with(&self.rt, Kind::C02, &prog, Some(full_src.clone()), &inputs_case, false);
+        if o_min.verdict == Verdict::Fail {
+            o_min.sig = format!("parens:minimal:{}", o_min.sig);
+            return o_min;
+        }
+        if o_full.verdict == Verdict::Fail {
+            let mut f = o_full;
+            f.sig = format!("parens:full:{}", f.sig);
+            return f;
+        }
+        match (o_min.verdict, o_full.verdict) {
+            (Verdict::Discard, Verdict::Pass) => {
+                let mut f = Outcome::fail(
+                    "parens:minimal-form-rejected",
+                    format!("the fully parenthesised form compiles, the form without redundant parentheses does not:\n{}\n--- full form ---\n{full_src}", o_min.msg),
+                );
+                f.render = Some(min_src);
+                f
+            }
+            (Verdict::Pass, Verdict::Discard) => {
+                let mut f = Outcome::fail(
+                    "parens:full-form-rejected",
+                    format!("the minimal form compiles, the fully parenthesised form does not:\n{}\n--- minimal form ---\n{min_src}", o_full.msg),
+                );
+                f.render = Some(full_src);
+                f
+            }
+            _ => {
+                o_min.nontrivial = o_min.verdict == Verdict::Pass && full_src.len() > min_src.len() + 8;
+                o_min.classes.push("sub:program-parens".into());
+                o_min
+            }
+        }
+    }
+
     fn operators(&self, ctl: &[u8], render: bool) -> Outcome {
         let mut c = Choices::new(&ctl[1.min(ctl.len())..]);
         let illegal = c.chance(50);
@@ -758,12 +810,13 @@ impl W {
     fn dispatch(&mut self, case: &Case, render: bool) -> Outcome {
         let empty: Vec<u8> = Vec::new();
         let ctl = case.first().unwrap_or(&empty);
-        let sub = ctl.first().copied().unwrap_or(0) % 8;
+        let sub = ctl.first().copied().unwrap_or(0) % 10;
         match sub {
             0 | 1 | 2 => self.literals(&ctl[1.min(ctl.len())..], render),
             3 => self.identifiers(&ctl[1.min(ctl.len())..], render),
             4 | 5 => self.trivia(case, render),
-            _ => self.operators(ctl, render),
+            6 | 7 => self.operators(ctl, render),
+            _ => self.program_parens(case, render),
         }
     }
 }
@@ -773,7 +826,7 @@ impl Prop for C09P {
         "C09"
     }
     fn rule(&self) -> String {
-        "four generators: (a) 40 literal spellings per script drawn from the documented literal grammar (ints with underscores/hex/suffixes, floats with fraction/exponent/suffix, chars and strings with every escape and line continuation, f-strings with {{ }} and interpolations, IPv4/IPv6, prefixes, AS numbers) compared with an independently decoded value; (b) XID_Start/XID_Continue identifiers (regex-syntax's Unicode tables) in type, field, variant, function, parameter, variable, binding and test positions; (c) generated programs with comments, blank lines, re-spaced lines and a shebang inserted, compared with the reference interpreter; (d) random operator trees of up to 6 binary + unary operators printed with minimal and with full parentheses, both compared with the reference interpreter, plus unparenthesised comparison chains and &&/|| mixtures that must be parse errors. Non-trivial: uses at least one optional feature (underscore, suffix, escape, exponent, hex, multi-byte text / non-ASCII identifier / inserted trivia / >= 3 operators); distinct by script text".into()
+        "five generators: (a) 40 literal spellings per script drawn from the documented literal grammar (ints with underscores/hex/suffixes, floats with fraction/exponent/suffix, chars and strings with every escape and line continuation, f-strings with {{ }} and interpolations, IPv4/IPv6, prefixes, AS numbers) compared with an independently decoded value; (b) XID_Start/XID_Continue identifiers (regex-syntax's Unicode tables) in type, field, variant, function, parameter, variable, binding and test positions; (c) generated programs with comments, blank lines, re-spaced lines and a shebang inserted, compared with the reference interpreter; (d) random operator trees of up to 6 binary + unary operators printed with minimal and with full parentheses, both compared with the reference interpreter, plus unparenthesised comparison chains and &&/|| mixtures that must be parse errors; (e) whole generated programs (records, enums, lists, strings, control flow, return/accept operands, match, f-strings) printed with minimal and with full parentheses: both forms must be accepted and agree with the reference interpreter. Non-trivial: uses at least one optional feature (underscore, suffix, escape, exponent, hex, multi-byte text / non-ASCII identifier / inserted trivia / >= 3 operators); distinct by script text".into()
     }
     fn assumptions(&self) -> Vec<String> {
         vec![
